@@ -508,7 +508,7 @@ def main():
     for fam, ks in (("laplace", [None]), ("helmholtz", [1.3, 0.8 + 0.5j, 0.9j]), ("modified_helmholtz", [0.7])):
         for op in O.SCALAR_OPS:
             for k in ks:
-                for asm in ("default_nonlocal", "dense", "only_singular_part", "fmm"):
+                for asm in ("default_nonlocal", "dense", "only_singular_part", "only_diagonal_part", "fmm"):
                     sweep.append((fam, op, k, asm, p1s, p1s, p1s))
     for op in ("electric_field", "magnetic_field"):
         for k in (1.1, 0.6 + 0.3j):
@@ -552,7 +552,8 @@ def main():
                 ctx.violation("explicit_parameters_not_bound:%s.%s:%s" % (fam, op, kcls), "%s: created with parameters=(7,6) but %s hold other values" % (cid, bad), cid)
     ctx.note("constructors_checked_for_parameter_binding", nbind)
     # numeric subset (each one costs JIT time): explicit P under default globals vs parameters=None under globals P
-    numeric = [("laplace", "double_layer", None, "dense"), ("helmholtz", "adjoint_double_layer", 0.9j, "dense"), ("helmholtz", "single_layer", 0.9j, "dense")]
+    numeric = [("laplace", "double_layer", None, "dense"), ("helmholtz", "adjoint_double_layer", 0.9j, "dense"), ("helmholtz", "single_layer", 0.9j, "dense"),
+               ("laplace", "single_layer", None, "only_diagonal_part")]
     if not ctx.quick:
         numeric += [("helmholtz", "double_layer", 0.9j, "dense"), ("helmholtz", "hypersingular", 0.9j, "dense"), ("modified_helmholtz", "hypersingular", 0.7, "dense"),
                     ("laplace", "hypersingular", None, "dense"), ("helmholtz", "hypersingular", 1.3, "dense"), ("maxwell", "magnetic_field", 1.1, "default_nonlocal")]
